@@ -190,7 +190,9 @@ func c11Run(c *Ctx) {
 		ly := gen.BuildTIFF(g, rec, gen.LayoutOpts{Foreign: 3})
 		tiff := ly.Encode(big).Bytes
 		x := c.L("gen:x")
-		h := gen.DrawHEIFOpts(g, tiff, g.Bool(), gen.HEIFOpts{ExtraIloc: x.Intn(3), Brands: x.Intn(13), InfeVariants: x.Intn(4), InfeVersions: infeVersions(c.L("gen:y")), Iref: c.L("gen:y").Bool(), ItemFirst: c.L("gen:y").Chance(1, 3), Mdat64: c.L("gen:y").Chance(1, 3), IinfFirst: c.L("gen:y").Bool()})
+		h := gen.DrawHEIFOpts(g, tiff, g.Bool(), gen.HEIFOpts{ExtraIloc: x.Intn(3), Brands: x.Intn(13), InfeVariants: x.Intn(4), InfeVersions: infeVersions(c.L("gen:y")), Iref: c.L("gen:y").Bool(), ItemFirst: c.L("gen:y").Chance(1, 3), Mdat64: c.L("gen:y").Chance(1, 3), IinfFirst: c.L("gen:y").Bool(),
+			BaseOffset: c.L("gen:w").Chance(1, 3), SecondMdat: c.L("gen:w").Chance(1, 3), MultiExtent: c.L("gen:w").Chance(1, 3),
+			ManyItems: []int{0, 0, 0, 1, 7, 60, 200, 260}[c.L("gen:w").Intn(8)], TiffHdrOff: []int{0, 0, 0, 1, 3, 9}[c.L("gen:w").Intn(6)]})
 		data, top = h.Bytes, h.Top
 		bo, first := tiffHdr(tiff)
 		mdatEnd := 0
